@@ -9,6 +9,7 @@ import (
 	"runtime"
 	"sort"
 	"strings"
+	"syscall"
 	"time"
 
 	"github.com/jamespfennell/gtfs"
@@ -734,10 +735,28 @@ func genC19Case(t *sim.T, tier string) *c19Case {
 	}
 	used := map[string]bool{}
 	ordered := t.Chance(1, 2) // names that follow time order (like real archives) or arbitrary names
+	nameStyle := t.Choose(5)
 	for i, g := range c.good {
 		name := ""
 		if ordered {
-			name = fmt.Sprintf("%010d.gtfsrt", gen.Epoch+i*30)
+			// names that spell the time of the snapshot, in the notations archives use; with UTC offsets that
+			// vary from file to file the order of the names is not the order of the instants
+			at := time.Unix(int64(gen.Epoch+i*30), 0)
+			switch nameStyle {
+			case 0, 1:
+				name = fmt.Sprintf("%010d.gtfsrt", gen.Epoch+i*30)
+			case 2:
+				name = at.UTC().Format(time.RFC3339) + ".gtfsrt"
+			case 3:
+				off := []int{-5 * 3600, -4 * 3600, 0, 9 * 3600, 5*3600 + 1800}[t.Choose(5)]
+				name = at.In(time.FixedZone("", off)).Format(time.RFC3339) + ".gtfsrt"
+				t.Probe("names-rfc3339-mixed-offsets")
+			case 4:
+				name = at.UTC().Format("20060102-150405") + ".pb"
+			}
+			if used[name] {
+				name = fmt.Sprintf("%s.%d", name, i)
+			}
 			used[name] = true
 		} else {
 			name = drawName(t, used, i)
@@ -1047,6 +1066,15 @@ func runC19CLI(t *sim.T, c *c19Case) *sim.Violation {
 		}
 	}
 	defer os.RemoveAll(root)
+	// Half of the command runs (when the harness is root and the sandbox lets it) execute the tool as another,
+	// unprivileged user: the files are then readable but not its own, and a file without read permission is one
+	// more kind of entry that cannot be read.
+	unpriv := t.Chance(1, 2) && cliUnprivileged(cli)
+	if unpriv {
+		t.Probe("cli-run-as-other-user")
+		os.Chmod(ScratchBase(), 0o755)
+		os.Chmod(outDir, 0o777)
+	}
 	for i := range c.entries {
 		e := c.entries[i]
 		e.exists = true
@@ -1056,6 +1084,13 @@ func runC19CLI(t *sim.T, c *c19Case) *sim.Violation {
 		}
 		d.events = append(d.events, e.name)
 		d.materialise(&e, c.extra[0])
+		if unpriv && e.kind == kGood && t.Chance(1, 8) {
+			if os.Chmod(filepath.Join(d.dir, e.name), 0) == nil {
+				e.isFile = false
+				t.Logf("entry %q: no read permission for the user the tool runs as", e.name)
+				t.Probe("cli-entry-without-read-permission")
+			}
+		}
 		d.ents = append(d.ents, &e)
 	}
 	sort.Slice(d.ents, func(a, b int) bool { return d.ents[a].name < d.ents[b].name })
@@ -1103,6 +1138,9 @@ func runC19CLI(t *sim.T, c *c19Case) *sim.Violation {
 		wants[v] = w
 	}
 	cmd := exec.Command(cli, "journal", "-o", outDir, d.dir)
+	if unpriv {
+		cmd.SysProcAttr = &syscall.SysProcAttr{Credential: &syscall.Credential{Uid: 65534, Gid: 65534}}
+	}
 	out, err := cmd.CombinedOutput()
 	t.Probe("cli-run")
 	for v := range c19Variants {
@@ -1130,6 +1168,25 @@ func runC19CLI(t *sim.T, c *c19Case) *sim.Violation {
 		return &sim.Violation{Class: "cli", Signature: "C19:cli-export-differs", Detail: fmt.Sprintf("the CSV files written by `gtfs journal` differ from the export of the journal built from the directory's good files (%d entries, %d good)", len(d.ents), nGoodFiles)}
 	}
 	return nil
+}
+
+var cliUnprivState int // 0 unknown, 1 available, 2 not available
+
+// cliUnprivileged reports (once per process) whether the tool can be executed as user 65534 at all: the harness
+// must be root and the binary must be reachable for that user. Anything else disables the mode; it never alarms.
+func cliUnprivileged(cli string) bool {
+	if cliUnprivState == 0 {
+		cliUnprivState = 2
+		if os.Geteuid() == 0 {
+			cmd := exec.Command(cli, "help")
+			cmd.SysProcAttr = &syscall.SysProcAttr{Credential: &syscall.Credential{Uid: 65534, Gid: 65534}}
+			err := cmd.Run()
+			if _, isExit := err.(*exec.ExitError); err == nil || isExit {
+				cliUnprivState = 1
+			}
+		}
+	}
+	return cliUnprivState == 1
 }
 
 func runC19(t *sim.T, tier string) *sim.Violation {
